@@ -23,6 +23,10 @@ use crate::utils::misc::{alloc_buffer_aligned, dealloc_buffer_aligned};
 use crate::utils::types::Index;
 
 const BUFFER_BUILDER_MAX_CAPACITY: Index = i32::MAX as Index - 8;
+/// Smallest buffer ever allocated: the reserved header (`limit` starts at `data_frame_header::LENGTH`, and that many
+/// bytes are copied when the buffer grows) must fit, and growing by `capacity >> 1` must make progress
+/// (with a capacity of 0 or 1 it does not and `find_suitable_capacity` never terminates).
+const BUFFER_BUILDER_MIN_CAPACITY: Index = 2 * data_frame_header::LENGTH;
 
 /// This type must not impl Copy! Only move semantics is allowed.
 /// BufferBuilder owns memory (allocates / deallocates it)
@@ -43,7 +47,10 @@ impl Drop for BufferBuilder {
 
 impl BufferBuilder {
     pub fn new(initial_length: isize) -> Self {
-        let len = bit_utils::find_next_power_of_two_i64(initial_length as i64) as Index;
+        let len = std::cmp::max(
+            bit_utils::find_next_power_of_two_i64(initial_length as i64) as Index,
+            BUFFER_BUILDER_MIN_CAPACITY,
+        );
         Self {
             capacity: len,
             limit: data_frame_header::LENGTH,
